@@ -268,6 +268,9 @@ def x509_cases(rng, quick):
                     certs = [cert(f"n{k}", min(k + 1, n - 1), k > 0) for k in range(n)]
                     certs[j][which] = T0 + dt
                     cases.append((f"sweep-{which}{dt:+d}-pos{j}/{n}", {"certs": certs, "chain": list(range(n - 1)), "roots": [n - 1], "time": T0}))
+                    # the same with the trust anchor itself sent along at the end of the chain: the verdict
+                    # must not depend on it (the anchor's own validity period counts either way)
+                    cases.append((f"sweep-{which}{dt:+d}-pos{j}/{n}-root-in-chain", {"certs": [dict(c) for c in certs], "chain": list(range(n)), "roots": [n - 1], "time": T0}))
     base = [cert("leaf", 1, False), cert("int", 2, True), cert("root", 2, True)]
     four = [cert("leaf", 1, False), cert("int1", 2, True), cert("int2", 3, True), cert("root", 3, True)]
     directed = {
